@@ -101,6 +101,13 @@ BeginVote(c) == /\ ~InFinish /\ pc[c] = "txn" /\ dirty[c] # {} /\ commitLock = N
                         /\ dirty' = [dirty EXCEPT ![c] = {}] /\ rc' = [rc EXCEPT ![c] = {}] /\ pc' = [pc EXCEPT ![c] = "idle"]
                         /\ UNCHANGED <<commitLock, ctid>>
                 /\ UNCHANGED <<hist, sLtid, start, inval, iLtid, polled, pending, pool, closes>>
+\* rollback to a savepoint (of a connection that had joined the transaction before it): the objects modified since
+\* are dropped - keep is what had been modified before the savepoint -, all modified copies become ghosts that are
+\* re-read on access, the transaction goes on; what it declared with readCurrent stays declared
+Rollback(c, keep) == /\ pc[c] = "txn" /\ keep \subseteq dirty[c]
+                     /\ cache' = [cache EXCEPT ![c] = [o \in Oid |-> IF o \in dirty[c] THEN 0 ELSE cache[c][o]]]
+                     /\ dirty' = [dirty EXCEPT ![c] = keep]
+                     /\ UNCHANGED <<hist, sLtid, start, inval, iLtid, pc, polled, rc, commitLock, pending, ctid, pool, closes>>
 \* a voted transaction is aborted (another participant's vote failed): Connection.tpc_abort -> storage.tpc_abort
 \* releases the commit lock, the modified copies are dropped
 AbortVoted(c) == /\ pc[c] = "voted" /\ c \notin UndoAgents
@@ -140,7 +147,7 @@ Next == \/ \E c \in Conn : OpenNew(c) \/ OpenPooled(c) \/ Close(c) \/ PollRead(c
         \/ \E c \in Conn, j \in Conn : Deliver(c, j)
         \/ \E u \in UndoAgents, oids \in SUBSET Oid : UndoVote(u, oids, TRUE)
 \* (kept apart from Next: the behaviours TLC simulates for the directed driver do not contain failing participants)
-NextVA == Next \/ \E c \in Conn : AbortVoted(c)
+NextVA == Next \/ \E c \in Conn : AbortVoted(c) \/ (WithRC /\ \E keep \in SUBSET Oid : Rollback(c, keep))
 Spec == Init /\ [][Next]_vars
 
 (* ------------------------------ properties ------------------------------ *)
